@@ -3,8 +3,10 @@ package keeper
 import (
 	"context"
 	"errors"
+	"strconv"
 
 	"cosmossdk.io/collections"
+	sdk "github.com/cosmos/cosmos-sdk/types"
 	sdkerrors "github.com/cosmos/cosmos-sdk/types/errors"
 	"github.com/cosmos/cosmos-sdk/types/query"
 	"google.golang.org/grpc/codes"
@@ -18,13 +20,38 @@ func (q queryServer) ListBid(ctx context.Context, req *types.QueryAllBidRequest)
 		return nil, status.Error(codes.InvalidArgument, "invalid request")
 	}
 
-	bids, pageRes, err := query.CollectionPaginate(
+	if req.Bidder != "" {
+		if _, err := sdk.AccAddressFromBech32(req.Bidder); err != nil {
+			return nil, status.Error(codes.InvalidArgument, "invalid bidder")
+		}
+	}
+	var isMatched *bool
+	if req.IsMatched != "" {
+		v, err := strconv.ParseBool(req.IsMatched)
+		if err != nil {
+			return nil, status.Error(codes.InvalidArgument, "invalid is_matched")
+		}
+		isMatched = &v
+	}
+
+	// List the bids of the requested auction, optionally filtered by bidder and matched status
+	bids, pageRes, err := query.CollectionFilteredPaginate(
 		ctx,
 		q.k.Bid,
 		req.Pagination,
+		func(_ collections.Pair[uint64, uint64], bid types.Bid) (bool, error) {
+			if req.Bidder != "" && bid.Bidder != req.Bidder {
+				return false, nil
+			}
+			if isMatched != nil && bid.IsMatched != *isMatched {
+				return false, nil
+			}
+			return true, nil
+		},
 		func(_ collections.Pair[uint64, uint64], value types.Bid) (types.Bid, error) {
 			return value, nil
 		},
+		query.WithCollectionPaginationPairPrefix[uint64, uint64](req.AuctionId),
 	)
 	if err != nil {
 		return nil, status.Error(codes.Internal, err.Error())
